@@ -210,7 +210,36 @@ fn rand_small(r: &mut Rng, depth: usize) -> T {
 
 fn utf8_name(r: &mut Rng) -> Vec<u8> {
     let opts: [&[u8]; 8] = [b"NAME", b"a", b"file.bin", "zażółć".as_bytes(), "日本".as_bytes(), b"dir/f", b"", b"x y"];
-    r.pick(&opts).to_vec()
+    match r.below(3) {
+        0 => utf8_text(r),
+        _ => r.pick(&opts).to_vec(),
+    }
+}
+
+/// Valid UTF-8 that a "helpful" conversion would alter: leading / trailing / inner white space of every kind, NUL, BOM,
+/// upper case, percent escapes, combining marks, characters outside the BMP.
+fn utf8_text(r: &mut Rng) -> Vec<u8> {
+    const PALETTE: [&str; 30] = [
+        " ", "\t", "\n", "\r", "\u{b}", "\u{c}", "\u{85}", "\u{a0}", "\u{2028}", "\u{3000}", "\u{feff}", "\0", "a", "Z", "/", "\\", ".", "..", "%",
+        "%20", "?", "&", "=", ":", "+", "é", "e\u{301}", "日", "😀", "\u{7f}",
+    ];
+    let n = r.below(9) as usize;
+    let mut s = String::new();
+    for _ in 0..n {
+        s.push_str(*r.pick(&PALETTE[..]));
+    }
+    s.into_bytes()
+}
+
+/// Announce values: plain URLs, and text the parser must hand over untouched.
+fn announce_text(r: &mut Rng) -> Vec<u8> {
+    let opts: [&[u8]; 8] = [
+        b"http://127.0.0.1:8000/ann", b"URL", b"http://t.example/a?k=v", b"", b"http://t/a\n", b" http://t/a", b"HTTP://T.Example/A%2fb/", b"   ",
+    ];
+    match r.below(3) {
+        0 => utf8_text(r),
+        _ => r.pick(&opts).to_vec(),
+    }
 }
 
 fn bad_utf8(r: &mut Rng) -> Vec<u8> {
@@ -334,7 +363,7 @@ pub fn gen_doc(r: &mut Rng, mutate: u64, style: u64) -> Doc {
         20 => {}
         21 => top.push((b"announce".to_vec(), 0, T::i(1))),
         22 => top.push((b"announce".to_vec(), 0, T::s(&bad_utf8(r)))),
-        _ => top.push((b"announce".to_vec(), 0, T::s(*r.pick(&[&b"http://127.0.0.1:8000/ann"[..], b"URL", b"http://t.example/a?k=v", b""])))),
+        _ => top.push((b"announce".to_vec(), 0, T::s(&announce_text(r)))),
     }
     if mutate == 23 {
         top.push((b"info".to_vec(), 0, T::i(7)));
